@@ -60,6 +60,9 @@ ALPHABET = [
     ["select", [Cn("k"), Cn("x")]],
     ["mutate", [["x", ["sub", lit(10), Cn("x")]]]],  # overwrite (order-reversing, so that a mix-up of old and new x shows)
     ["mutate", [["c", lit(1)]]],  # constant column (must not be padded with the constant by an outer join)
+    # the right operand is itself a subquery
+    ["union", {"src": "U", "hist": [["arrange", [["col", "src", "U", "k"]]], ["slice_head", 2, 0], ["alias"]]}, False],
+    ["join", {"src": "R", "hist": [["arrange", [kR]], ["slice_head", 3, 0], ["alias"]]}, "left", [["eq", Cn("k"), ["col", "right", "rk"]]]],
 ]
 ALIAS = ["alias"]
 SIMPLE = {"filter:ewise", "mutate:ewise", "select", "rename", "arrange"}
